@@ -127,13 +127,11 @@ void gen_cache(splitmix &r, unsigned n)
 
 void gen_lambda(splitmix &r, unsigned n)
 {
-  // make sure the factory knows the eight ids (load<T> registers the kinds for T on first use)
-  { std::istringstream e; (void)serialize::lambda::load<i_mep>(e, L().regr.sset); }
-  { std::istringstream e; (void)serialize::lambda::load<team<i_mep>>(e, L().regr.sset); }
+  register_lambda_kinds();
   for (unsigned k(0); k < n; ++k)
   {
     const lam_case x(make_lambda(r));
-    const std::string tags("kind=" + u(unsigned(x.kind)));
+    const std::string tags("kind=" + u(unsigned(x.kind)) + ",prob=" + u(unsigned(prob_id(x.prob))));
     pre("lam", k, tags);
     bool sok(false);
     const std::string bytes(lambda_bytes(*x.model, &sok));
